@@ -75,10 +75,13 @@ def dclit(d):
 def certlit(c):
     if c is None:
         return 'None'
-    return ('(Some {| cm_chain := %s; cm_cert := %s; cm_key := %d; cm_keytype := %s; cm_curve_hash := %s; '
-            'cm_policy := %s; cm_dc := [%s] |})' % (blit(c['chain']), blit(c['cert']), c['key'], strlit(c['keytype']),
-                                                    ostr(c['curve_hash']), oz(c['policy']),
-                                                    ';'.join(dclit(d) for d in c['dc'])))
+    entries = c.get('entries')
+    if entries is None:
+        entries = [] if not c['chain'] else [{'id': c['chain'][0], 'cert': c['cert'], 'key': c['key'], 'dc': c['dc']}]
+    el = ';'.join('{| e_id := %d; e_cert := %s; e_key := %d; e_dc := [%s] |}'
+                  % (e['id'], blit(e['cert']), e['key'], ';'.join(dclit(d) for d in e['dc'])) for e in entries)
+    return ('(Some {| cm_entries := [%s]; cm_keytype := %s; cm_curve_hash := %s; cm_policy := %s |})'
+            % (el, strlit(c['keytype']), ostr(c['curve_hash']), oz(c['policy'])))
 
 
 def runlit(m):
@@ -110,6 +113,9 @@ def caselit(o):
     idn = o['ident']
     pc = idn['server'] if m['is_client'] else idn['client']
     chain = None if (pc is None or pc == 0) else [pc]
+    ids = idn.get('server_ids' if m['is_client'] else 'client_ids')
+    if chain is not None and ids:
+        chain = ids                                  # every certificate of the recorded chain, in order
     srp = None if idn['srp'] is None else list(idn['srp'].encode('latin1'))
     return '(%d, %s, %s, %s, %s, %d, %s, %s, %s)' % (
         m['flow'], answerslit(m), runlit(m), boollit(m['is_client']), olist(m['want']), o['code'],
